@@ -56,7 +56,7 @@ inductive Op where
   | appendInPlace (e : Elem) (c : Nat)           -- `cycle.cycle_elements.append(e)` (no setter involved)
   | fresh (es : List Elem) (cls : List Nat) (off : Int)   -- `light.traffic_light_cycle = TrafficLightCycle(...)`: queries go to the new object
   | keep                                         -- active / colour / direction / position / id / shape setters, translate_rotate,
-                                                 -- convert_to_2d, ==, hash, str, repr, deepcopy, pickle, a raising call: no effect here
+                                                 -- convert_to_2d, ==, hash, str, repr, deepcopy, pickle, a raising call, setters / queries on a SHALLOW copy: no effect here
   deriving DecidableEq, Repr, Inhabited
 
 /-- Does `cycle_init_timesteps` notice a table that no longer belongs to the current durations / offset?
